@@ -194,6 +194,9 @@ impl fmt::Debug for SubstreamType {
 /// Backpressure boundary for `Sink`.
 const BACKPRESSURE_BOUNDARY: usize = 65536;
 
+/// Allocation step for the payload of a length-prefixed frame when the codec has no maximum size.
+const UNBOUNDED_READ_CHUNK: usize = 64 * 1024;
+
 /// `Litep2p` substream type.
 ///
 /// Implements [`tokio::io::AsyncRead`]/[`tokio::io::AsyncWrite`] traits which can be wrapped
@@ -600,6 +603,15 @@ impl Stream for Substream {
 
                         match this.current_frame_size.take() {
                             Some(frame_size) => {
+                                // Grow the buffer as the payload arrives (see below).
+                                if this.offset == this.read_buffer.len() {
+                                    let new_len = std::cmp::min(
+                                        frame_size,
+                                        this.read_buffer.len().saturating_add(UNBOUNDED_READ_CHUNK),
+                                    );
+                                    this.read_buffer.resize(new_len, 0u8);
+                                }
+
                                 let mut read_buf =
                                     ReadBuf::new(&mut this.read_buffer[this.offset..]);
                                 this.current_frame_size = Some(frame_size);
@@ -683,7 +695,13 @@ impl Stream for Substream {
                                                 }
 
                                                 this.current_frame_size = Some(size);
-                                                this.read_buffer = BytesMut::zeroed(size);
+                                                // Without a maximum the announced size is not
+                                                // trusted: allocating it up front would let the
+                                                // remote abort the process with a bogus length.
+                                                this.read_buffer = BytesMut::zeroed(match max_size {
+                                                    Some(_) => size,
+                                                    None => std::cmp::min(size, UNBOUNDED_READ_CHUNK),
+                                                });
                                             }
                                         }
                                     }
